@@ -11,6 +11,7 @@ mkdir -p bin evidence replays
 # warm the build cache for every engine (so the first quick check does not pay for the std + goloop build)
 for e in sim/engines/*/; do
   n=$(basename "$e")
-  ( cd sim && $GO test -c -tags verif -vet=off -o ../bin/$n.test ./engines/$n ) || exit 1
+  # best effort: every check rebuilds its own engine anyway; an engine that is still under construction must not break setup
+  ( cd sim && $GO test -c -tags verif -vet=off -o ../bin/$n.test ./engines/$n ) || echo "warning: engine $n did not build (its checks will report it)" 
 done
 echo setup ok
